@@ -585,4 +585,58 @@ theorem smear_oddPart_support (m n : ℕ) (hm : 0 < m) (hn : 0 < n) (dist ang ps
   simp only [oddPart, smearKernel, Gen.bwSmearKernel, fu, fv, BlurLike.sinc, mul_neg, ← neg_add, neg_mul, Real.sinc_neg, sub_self,
     zero_div]
 
+/-- a non-negative convolution is returned unchanged and keeps the total (conditional form, realness as a hypothesis; used by
+`C19.equals_convolution_when_hermitian`, where realness is proved). Writing the exact circular
+convolution as the inverse transform of the product, `c = ifft2(fft2(img)·K)`: wherever `c` is real and non-negative the
+un-normalised output equals it, and if it is so at every sample the output total is `K[0,0]·Σ img = Σ img`.
+-/
+theorem nonneg_convolution_kept (img k : Arr ℝ) (m n : ℕ) (hm : img.s0 = m) (hn : img.s1 = n) (hm0 : 0 < m)
+    (hn0 : 0 < n) (r : ℕ → ℕ → ℝ) (hr : ∀ i j, 0 ≤ r i j)
+    (hc : ∀ i j : ℕ, i < m → j < n →
+      (ifft2 (R := ℝ) (mulKernel (fft2 (R := ℝ) (toCx (K := ℂ) img)) k)).get i j = ((r i j : ℝ) : ℂ)) :
+    (∀ i j : ℕ, i < m → j < n → (blurCore ℂ img k).get i j = r i j) ∧
+    (k.get 0 0 = 1 → arrSum (blurCore ℂ img k) = arrSum img) := by
+  have hget : ∀ i j : ℕ, i < m → j < n → (blurCore ℂ img k).get i j = r i j := by
+    intro i j hi hj
+    rw [blurCore_def]
+    show ‖(ifft2 (R := ℝ) (mulKernel (fft2 (R := ℝ) (toCx (K := ℂ) img)) k)).get i j‖ = r i j
+    rw [hc i j hi hj, Complex.norm_real, Real.norm_eq_abs, abs_of_nonneg (hr i j)]
+  refine ⟨hget, fun hk => ?_⟩
+  have h0 : (blurCore ℂ img k).s0 = m := hm
+  have h1 : (blurCore ℂ img k).s1 = n := hn
+  rw [arrSum_eq (blurCore ℂ img k), h0, h1]
+  simp only [Int.toNat_natCast]
+  have hs := sum_filtered img k m n hm hn hm0 hn0
+  rw [hk, one_mul] at hs
+  apply Complex.ofReal_injective
+  rw [← hs]
+  push_cast
+  exact sum_congr rfl fun i hi => sum_congr rfl fun j hj => by
+    rw [hget i j (mem_range.mp hi) (mem_range.mp hj), hc i j (mem_range.mp hi) (mem_range.mp hj)]
+
+/-- the odd part of the smear transfer function is at most 1 in modulus (`|sinc| ≤ 1`) -/
+theorem smear_oddPart_abs_le_one (m n : ℕ) (dist ang ps os : ℝ) (u v : ℤ) :
+    |(oddPart (smearKernel m n dist ang ps os) m n).get u v| ≤ 1 := by
+  simp only [oddPart, smearKernel, Gen.bwSmearKernel, BlurLike.sinc]
+  rw [abs_div, abs_two, div_le_iff₀ (by norm_num)]
+  refine (abs_sub _ _).trans ?_
+  exact (add_le_add (Real.abs_sinc_le_one _) (Real.abs_sinc_le_one _)).trans (by norm_num)
+
+/-- the bound of `smear_even_axis_deviation` is at most the mean modulus of the image spectrum over the Nyquist row and column -/
+theorem nyquist_bound_le_lines (img : Arr ℝ) (m n : ℕ) (hm0 : 0 < m) (hn0 : 0 < n) (dist ang ps os : ℝ) :
+    (∑ v ∈ range n, ∑ u ∈ range m, ‖(fft2 (R := ℝ) (toCx (K := ℂ) img)).get u v‖
+        * |(oddPart (smearKernel m n dist ang ps os) m n).get u v|) / ((m : ℝ) * n)
+      ≤ (∑ v ∈ range n, ∑ u ∈ range m,
+          if 2 * u = m ∨ 2 * v = n then ‖(fft2 (R := ℝ) (toCx (K := ℂ) img)).get u v‖ else 0) / ((m : ℝ) * n) := by
+  have hmn : (0 : ℝ) < (m : ℝ) * n := by positivity
+  refine div_le_div_of_nonneg_right ?_ hmn.le
+  refine sum_le_sum fun v hv => sum_le_sum fun u hu => ?_
+  split_ifs with hny
+  · calc _ ≤ ‖(fft2 (R := ℝ) (toCx (K := ℂ) img)).get u v‖ * 1 :=
+          mul_le_mul_of_nonneg_left (smear_oddPart_abs_le_one m n dist ang ps os u v) (norm_nonneg _)
+      _ = _ := mul_one _
+  · have hu' := emod_range_nat m u hu
+    have hv' := emod_range_nat n v hv
+    rw [smear_oddPart_support m n hm0 hn0 dist ang ps os u v (by rw [hu']; omega) (by rw [hv']; omega), abs_zero, mul_zero]
+
 end Lentil
